@@ -118,3 +118,80 @@ Theorem C16_xr_chunk_accessors_injective : forall c d, c < 65536 -> d < 65536 ->
   chunk_type c = chunk_type d -> chunk_run_type c = chunk_run_type d -> chunk_value c = chunk_value d -> c = d.
 Proof. exact chunk_accessors_injective. Qed.
 Print Assumptions C16_xr_chunk_accessors_injective.
+
+(* ---------------------------------------------------------------------------------------------------------------
+   The same units as TRANSLATED FROM THE GO SOURCE TEXT on this run (Gen/Funcs.v, module GoSrc, written by srcgen/trans.go
+   over the semantics of Lib/GoSem.v).  First: each translated function computes what the model function above computes
+   (for decoders: whatever the receiver held before); then round trips phrased in terms of the translated functions only.
+   A change to one of these Go functions changes Gen/Funcs.v and these obligations are re-checked against it. *)
+From RTCP Require Import Lib.GoSem Gen.Funcs Proofs.SourceEquiv Proofs.SourceCorollaries.
+Theorem C16_source_header_unmarshal : forall h0 b, GoSrc.Header_Unmarshal h0 b = res_map src_header (Header_unmarshal b).
+Proof. exact src_Header_Unmarshal. Qed.
+Print Assumptions C16_source_header_unmarshal.
+Theorem C16_source_header_marshal : forall h, GoSrc.Header_Marshal (src_header h) = Header_marshal h.
+Proof. exact src_Header_Marshal. Qed.
+Print Assumptions C16_source_header_marshal.
+Theorem C16_source_reception_report_unmarshal : forall r0 b, GoSrc.ReceptionReport_Unmarshal r0 b = res_map src_rrep (RRep_unmarshal b).
+Proof. exact src_ReceptionReport_Unmarshal. Qed.
+Print Assumptions C16_source_reception_report_unmarshal.
+Theorem C16_source_reception_report_marshal : forall r, GoSrc.ReceptionReport_Marshal (src_rrep r) = RRep_marshal r.
+Proof. exact src_ReceptionReport_Marshal. Qed.
+Print Assumptions C16_source_reception_report_marshal.
+Theorem C16_source_run_length_chunk_unmarshal : forall r0 b, GoSrc.RunLengthChunk_Unmarshal r0 b = res_map src_rlc (RLC_unmarshal b).
+Proof. exact src_RunLengthChunk_Unmarshal. Qed.
+Print Assumptions C16_source_run_length_chunk_unmarshal.
+Theorem C16_source_run_length_chunk_marshal : forall ty sym run,
+  GoSrc.RunLengthChunk_Marshal (src_rlc (RLC ty sym run)) = TChunk_marshal (RLC ty sym run).
+Proof. exact src_RunLengthChunk_Marshal. Qed.
+Print Assumptions C16_source_run_length_chunk_marshal.
+Theorem C16_source_recv_delta_unmarshal : forall r0 b, GoSrc.RecvDelta_Unmarshal r0 b = res_map src_delta (RecvDelta_unmarshal b).
+Proof. exact src_RecvDelta_Unmarshal. Qed.
+Print Assumptions C16_source_recv_delta_unmarshal.
+Theorem C16_source_recv_delta_marshal : forall d, delta_fits d -> GoSrc.RecvDelta_Marshal (src_delta d) = RecvDelta_marshal d.
+Proof. exact src_RecvDelta_Marshal. Qed.
+Print Assumptions C16_source_recv_delta_marshal.
+Theorem C16_source_metric_unmarshal : forall m0 b, GoSrc.CCFeedbackMetricBlock_unmarshal m0 b = res_map src_metric (CCMetric_unmarshal b).
+Proof. exact src_CCFeedbackMetricBlock_unmarshal. Qed.
+Print Assumptions C16_source_metric_unmarshal.
+Theorem C16_source_metric_marshal : forall m, GoSrc.CCFeedbackMetricBlock_marshal (src_metric m) = CCMetric_marshal m.
+Proof. exact src_CCFeedbackMetricBlock_marshal. Qed.
+Print Assumptions C16_source_metric_marshal.
+Theorem C16_source_xr_chunk_accessors : forall c, c < 65536 ->
+  GoSrc.Chunk_Type (Z.of_N c) = Z.of_N (chunk_type c) /\
+  GoSrc.Chunk_RunType (Z.of_N c) = res_map Z.of_N (chunk_run_type c) /\
+  GoSrc.Chunk_Value (Z.of_N c) = Z.of_N (chunk_value c).
+Proof. intros c H. repeat split; [apply src_Chunk_Type | apply src_Chunk_RunType | apply src_Chunk_Value]; exact H. Qed.
+Print Assumptions C16_source_xr_chunk_accessors.
+Theorem C16_source_setNBitsOfUint16 : forall s z st v,
+  GoSrc.setNBitsOfUint16 (Z.of_N s) (Z.of_N z) (Z.of_N st) (Z.of_N v) = res_map Z.of_N (setNBitsOfUint16 s z st v).
+Proof. exact src_setNBitsOfUint16. Qed.
+Print Assumptions C16_source_setNBitsOfUint16.
+Theorem C16_source_getNBitsFromByte : forall b s n, b < 2 ^ 64 ->
+  GoSrc.getNBitsFromByte (Z.of_N b) (Z.of_N s) (Z.of_N n) = Z.of_N (getNBitsFromByte b s n).
+Proof. exact src_getNBitsFromByte_gen. Qed.
+Print Assumptions C16_source_getNBitsFromByte.
+Theorem C16_source_get24BitsFromBytes : forall b, GoSrc.get24BitsFromBytes b = res_map Z.of_N (get24BitsFromBytes b).
+Proof. exact src_get24BitsFromBytes. Qed.
+Print Assumptions C16_source_get24BitsFromBytes.
+(* round trips on the translated functions alone *)
+Theorem C16_source_header_roundtrip : forall p c t l rest h0, c < 32 -> t < 256 -> l < 65536 ->
+  exists b, GoSrc.Header_Marshal (src_header (mkHeader p c t l)) = Ok b /\
+            GoSrc.Header_Unmarshal h0 (b ++ rest) = Ok (src_header (mkHeader p c t l)).
+Proof. exact source_header_roundtrip. Qed.
+Print Assumptions C16_source_header_roundtrip.
+Theorem C16_source_header_limits : forall h h0 b,
+  (31 < h_count h -> GoSrc.Header_Marshal (src_header h) = Err) /\ (len b < 4 -> GoSrc.Header_Unmarshal h0 b = Err).
+Proof. exact source_header_limits. Qed.
+Print Assumptions C16_source_header_limits.
+Theorem C16_source_recv_delta_roundtrip : forall d r0, delta_ok d = true -> delta_fits d ->
+  exists b, GoSrc.RecvDelta_Marshal (src_delta d) = Ok b /\ GoSrc.RecvDelta_Unmarshal r0 b = Ok (src_delta d).
+Proof. exact source_recv_delta_roundtrip. Qed.
+Print Assumptions C16_source_recv_delta_roundtrip.
+Theorem C16_source_metric_roundtrip : forall m m0, D_metric m = true ->
+  exists b, GoSrc.CCFeedbackMetricBlock_marshal (src_metric m) = Ok b /\ GoSrc.CCFeedbackMetricBlock_unmarshal m0 b = Ok (src_metric m).
+Proof. exact source_metric_roundtrip. Qed.
+Print Assumptions C16_source_metric_roundtrip.
+Theorem C16_source_reception_report_roundtrip : forall r rest r0, D_rrep r = true ->
+  exists b, GoSrc.ReceptionReport_Marshal (src_rrep r) = Ok b /\ GoSrc.ReceptionReport_Unmarshal r0 (b ++ rest) = Ok (src_rrep r).
+Proof. exact source_reception_report_roundtrip. Qed.
+Print Assumptions C16_source_reception_report_roundtrip.
